@@ -202,4 +202,8 @@ pub const CATALOGUE: &[&str] = &[
     ">> [mode]: steps\n#frying pan|pan{}\n\nuse the #pan{}",
     "@olive oil|oil{} then @&oil{} and @oil{} @&oil{}",
     ">> [duplicate]: ref\n@olive oil|oil{1%l} @oil{2%l}",
+    // `>>` lines under a front matter whose key is brackets with nothing (or only blanks) inside
+    "---\ntitle: x\n---\n>> []: x\nstep",
+    "---\na: 1\n---\n>> [ ]: y\n>> [mode]: steps\n@a{}",
+    "---\n---\n>> []:\n>> [ : z",
 ];
